@@ -179,7 +179,7 @@ class SyncRunnerTemplate(BaseRunner, ABC):
             error = e
             partial_state = getattr(e, "_partial_state", None)
             if isinstance(e, ExecutionError):
-                error = e.__cause__ or e
+                error = e.__cause__ if e.__cause__ is not None else e
                 partial_state = e.partial_state
 
             self._emit_run_end_sync(
